@@ -978,12 +978,12 @@ def plan(tier, seed):
               for i in range(n)]
     # pre-emptive tier (OS-thread backend, line-level pre-emption)
     pre = []
-    for k in range(8000 if tier == 'thorough' else 120):
+    for k in range(8000 if tier == 'thorough' else 1600):
         racers = rng.sample(RACERS, rng.randint(2, 4))
         pre.append({'preempt': True, 'sched': seed * 100000 + k + 1,
                     'state': rng.choice(['poll', 'poll', 'nopoll', 'closed']),
                     'racers': racers})
-    k = 8 if tier == 'thorough' else 2
+    k = 8 if tier == 'thorough' else 8
     for i in range(k):
         shards.append({'cases': pre[i::k]})
     return shards
